@@ -69,7 +69,9 @@ def jobs_C16(tier, scale):
     mixMW = dict(add=85, dedup=8, resize=5)
     return [hist_job("C16", _classes(["DS", "US", "DL", "UL"], ["int", "string"]), mixL, tier, scale, 10000, 250000, "forced duplicates, simple and labelled", force=50, pairvalues=1),
             hist_job("C16", _classes(["DW", "UW"]), mixMW, tier, scale, 4000, 100000, "forced duplicates, weighted", force=60, pairvalues=1, final="dedup"),
-            hist_job("C16", _classes(["DM", "UM"]), mixMW, tier, scale, 4000, 100000, "forced duplicates, multigraphs", force=100, pairvalues=1, final="dedup")]
+            hist_job("C16", _classes(["DM", "UM"]), mixMW, tier, scale, 3000, 80000, "forced duplicates, multigraphs", force=100, pairvalues=1, final="dedup"),
+            hist_job("C16", _classes(["DM", "UM"]), mixMW, tier, scale, 2000, 50000, "forced duplicates, multigraphs, per-pair multiplicities of several 10^8 (totals beyond 2^32)", force=100, pairvalues=1,
+                     bigmult=1, final="dedup")]
 
 
 def jobs_C06(tier, scale):
@@ -101,10 +103,11 @@ def enum_job(executor, name, cfg, tier, label, shards=None, config="san"):
 def jobs_C08(tier, scale):
     cl = _classes(ALL8, ["int", "string"])
     pads = "0:0;1:0;0:2;2:1"
+    sparse = graph_job("C08", "iter", cl, tier, scale, 3000, 80000, "generated sparse graphs up to 14 vertices with isolated runs at both ends", nmax=14, pads=1, max_size=40)
     if tier == "quick":
         return [enum_job("iter", "graphs", dict(prop="C08", classes=cl, dmin=0, dmax=3, umin=0, umax=4, orders=3, pads=pads, writers_n=2), tier,
-                         "every directed graph on 0..3 and undirected on 0..4 vertices x 3 insertion orders x 4 isolated-vertex paddings, 10 class/label configs")]
-    return [enum_job("iter", "graphs", dict(prop="C08", classes=cl, dmin=0, dmax=3, umin=0, umax=4, orders=4, pads=pads, writers_n=3), tier, "small scopes, all paddings"),
+                         "every directed graph on 0..3 and undirected on 0..4 vertices x 3 insertion orders x 4 isolated-vertex paddings, 10 class/label configs"), sparse]
+    return [sparse, enum_job("iter", "graphs", dict(prop="C08", classes=cl, dmin=0, dmax=3, umin=0, umax=4, orders=4, pads=pads, writers_n=3), tier, "small scopes, all paddings"),
             enum_job("iter", "graphs", dict(prop="C08", classes=_classes(["DS", "DL", "DM", "DW"], ["int"]), dmin=4, dmax=4, orders=2, pads="0:0;1:1", writers_n=-1), tier,
                      "every directed graph on 4 vertices (65536) x 2 orders x 2 paddings x 4 classes"),
             enum_job("iter", "graphs", dict(prop="C08", classes=_classes(["US", "UL", "UM", "UW"], ["int"]), umin=5, umax=5, orders=2, pads="0:0;1:1", writers_n=-1), tier,
@@ -234,6 +237,7 @@ def c17_streams(tier, scale):
     st.append(dict(name="C06", executor="eq", gen="eq", cfg=jobs_C06(tier, scale)[0]["cfg"], cases=n(1200, 20000), max_size=35))
     st.append(dict(name="C11", executor="bfs", gen="graph", cfg=dict(prop="C11", classes=_classes(["DS", "US", "DL", "UL"], ["int"]), nmax="9"), cases=n(800, 15000), max_size=50))
     st.append(dict(name="C12", executor="dij", gen="graph", cfg=dict(prop="C12", classes=_classes(["DW", "UW"]), nmax="12", xmax="17", extra="wmode int"), cases=n(800, 15000), max_size=50))
+    st.append(dict(name="C19bfs", executor="bfs", gen="family", cfg=dict(prop="C19", classes=_classes(["DS", "US"])), cases=n(150, 3000), max_size=100))
     st.append(dict(name="C08", executor="iter", gen="graph", cfg=dict(prop="C08", classes=_classes(ALL8, ["int", "string"]), nmax="8", pads="1"), cases=n(800, 15000), max_size=50))
     return st
 
